@@ -207,10 +207,15 @@ structure Layout where
   ctorStopFirst : Bool
   /-- SetHandler: `handler_ = 0; data_ = d; handler_ = h` (repair) instead of `handler_ = h; data_ = d` (pinned) -/
   regClearFirst : Bool
+  /-- destructor: no `stop_ = 1` store (proposed repair repo_patches/C15-fix-dtor-keep-count.diff) instead of resetting
+      the count of recorded interrupts to 1 (current code) -/
+  dtorKeepsStop : Bool
   deriving DecidableEq, Repr
 
-def Layout.pinned : Layout := ⟨false, false⟩
-def Layout.fixed : Layout := ⟨true, true⟩
+def Layout.pinned : Layout := ⟨false, false, false⟩
+def Layout.fixed : Layout := ⟨true, true, false⟩
+/-- all three repairs -/
+def Layout.repaired : Layout := ⟨true, true, true⟩
 
 /-- The store order of the code as it is now (ampl/mp 208050e: `stop_ = 0` before the `signal()` calls; 47cb42b:
     `handler_ = 0; data_ = d; handler_ = h`).  `checks/c15.py` reads the order off the real code (hook names) on every
@@ -227,13 +232,14 @@ def ctorSteps (L : Layout) : List Micro :=
   else [.cAlloc, .cIntr, .cPtr, .cSize, .cSigInt, .cSigTerm, .cStop0]
 def regSteps (L : Layout) (h d : Nat) : List Micro :=
   if L.regClearFirst then [.setH 0, .setD d, .setH h] else [.setH h, .setD d]
-def dtorSteps : List Micro := [.dIntr, .dStop1, .dH0, .dSize0, .dFree]
+def dtorSteps (L : Layout) : List Micro :=
+  if L.dtorKeepsStop then [.dIntr, .dH0, .dSize0, .dFree] else [.dIntr, .dStop1, .dH0, .dSize0, .dFree]
 
 def expand (L : Layout) : Macro → List Micro
   | .ctor => ctorSteps L
   | .reg h d => regSteps L h d
   | .work => [.work]
-  | .dtor => dtorSteps
+  | .dtor => dtorSteps L
   | .nreg h d => [.nreg h d]
 
 def expandProg (L : Layout) : List Macro → List Micro
@@ -304,7 +310,8 @@ def pcNext (L : Layout) : PC → Micro → Option PC
   | .dat d, .setH h => if L.regClearFirst then some (.live (some (h, d))) else none
   | .live r, .work => some (.live r)
   | .live r, .dIntr => some (.dI r)
-  | .dI r, .dStop1 => some (.dS r)
+  | .dI r, .dStop1 => if L.dtorKeepsStop then none else some (.dS r)
+  | .dI _, .dH0 => if L.dtorKeepsStop then some .dH else none
   | .dS _, .dH0 => some .dH
   | .dH, .dSize0 => some .dZ
   | .dZ, .dFree => some .idle
